@@ -754,41 +754,114 @@ theorem set_set (st : ByteLog.State) (o : Nat) (a b : Option (List Nat)) : (st.s
 theorem set_get (st : ByteLog.State) (o : Nat) (a : Option (List Nat)) : (st.set o a) o = a := by
   simp [ByteLog.State.set]
 
+
+/-- the fields of the stream after the two closing statements of an append -/
+theorem storeAtEnd_fields {p : Pool} {o : Nat} {s : Obj} (hi : Inv p) (ho : p.objs o = some s) (bytes : List Nat)
+    (hroom : s.size + bytes.length ≤ s.alloc) (p' : Pool) (h : storeAtEnd o bytes p = .ok () p') :
+    ∃ s', p'.objs o = some s' ∧ s'.alloc = s.alloc ∧ s'.size = s.size + bytes.length := by
+  have hlen := hi.stackLen ho
+  cases hi.mode ho with
+  | stack ha hc =>
+    have hw : writeUnits s.chars s.size bytes p = .ok () (p.setO o (some { s with stack := overwrite s.stack s.size bytes })) := by
+      have := writeUnits_stack s.size bytes ho (by omega); rwa [← hc] at this
+    have ho2 : (p.setO o (some { s with stack := overwrite s.stack s.size bytes })).objs o = some { s with stack := overwrite s.stack s.size bytes } := by simp
+    simp only [storeAtEnd, bind_apply, getObj_eq ho, hw, getObj_eq ho2, setObj_eq] at h
+    cases h
+    exact ⟨{ s with stack := overwrite s.stack s.size bytes, size := s.size + bytes.length }, by simp, rfl, rfl⟩
+  | heap k blk ha hc hk hl =>
+    have hw : writeUnits s.chars s.size bytes p = .ok () (p.setH k (some (overwrite blk s.size bytes))) := by
+      have := writeUnits_heap s.size bytes hk (by omega); rwa [← hc] at this
+    have ho2 : (p.setH k (some (overwrite blk s.size bytes))).objs o = some s := ho
+    simp only [storeAtEnd, bind_apply, getObj_eq ho, hw, getObj_eq ho2, setObj_eq] at h
+    cases h
+    exact ⟨{ s with size := s.size + bytes.length }, by simp, rfl, rfl⟩
+
+/-- with room for the bytes nothing is allocated: the store cannot throw, the capacity stays -/
+theorem growStore_room {p : Pool} {o : Nat} {s : Obj} (hi : Inv p) (ho : p.objs o = some s) {b : List Nat} (hb : abs p o = some b)
+    (bytes : List Nat) (hroom : s.size + bytes.length ≤ s.alloc) :
+    ∃ p' s', (expandBuffer o bytes.length >>= fun _ => storeAtEnd o bytes) p = .ok () p' ∧ Inv p' ∧
+      abs p' = (abs p).set o (some (b ++ bytes)) ∧ p'.failAt = p.failAt ∧
+      p'.objs o = some s' ∧ s'.alloc = s.alloc ∧ s'.size = s.size + bytes.length := by
+  obtain ⟨p2, h2, hi2, ha2, hf2⟩ := storeAtEnd_ok hi ho bytes hroom hb
+  obtain ⟨s', h3, h4, h5⟩ := storeAtEnd_fields hi ho bytes hroom p2 h2
+  refine ⟨p2, s', ?_, hi2, ha2, hf2, h3, h4, h5⟩
+  simp only [bind_apply, expand_nogrow ho _ hroom, h2]
+
+theorem append_room {p : Pool} {o : Nat} {s : Obj} (hi : Inv p) (ho : p.objs o = some s) {b : List Nat} (hb : abs p o = some b)
+    (bytes : List Nat) (hroom : s.size + bytes.length ≤ s.alloc) :
+    ∃ p' s', append o bytes p = .ok () p' ∧ Inv p' ∧ abs p' = (abs p).set o (some (b ++ bytes)) ∧ p'.failAt = p.failAt ∧
+      p'.objs o = some s' ∧ s'.alloc = s.alloc ∧ s'.size = s.size + bytes.length := by
+  by_cases h0 : bytes.length = 0
+  · have : bytes = [] := List.eq_nil_of_length_eq_zero h0
+    subst this
+    refine ⟨p, s, by simp [append], hi, ?_, rfl, ho, rfl, rfl⟩
+    rw [List.append_nil, set_same _ _ _ hb]
+  · have : append o bytes = (expandBuffer o bytes.length >>= fun _ => storeAtEnd o bytes) := by
+      simp [append, h0]
+    rw [this]
+    exact growStore_room hi ho hb bytes hroom
+
+theorem appendChar_room {p : Pool} {o : Nat} {s : Obj} (hi : Inv p) (ho : p.objs o = some s) {b : List Nat} (hb : abs p o = some b)
+    (ch n : Nat) (hroom : s.size + n ≤ s.alloc) :
+    ∃ p' s', appendChar o ch n p = .ok () p' ∧ Inv p' ∧ abs p' = (abs p).set o (some (b ++ List.replicate n ch)) ∧ p'.failAt = p.failAt ∧
+      p'.objs o = some s' ∧ s'.alloc = s.alloc ∧ s'.size = s.size + n := by
+  by_cases h0 : n = 0
+  · subst h0
+    refine ⟨p, s, by simp [appendChar], hi, ?_, rfl, ho, rfl, rfl⟩
+    rw [List.replicate_zero, List.append_nil, set_same _ _ _ hb]
+  · have : appendChar o ch n = (expandBuffer o (List.replicate n ch).length >>= fun _ => storeAtEnd o (List.replicate n ch)) := by
+      simp [appendChar, h0]
+    rw [this]
+    have := growStore_room hi ho hb (List.replicate n ch) (by simpa using hroom)
+    simpa using this
+
+/-- `operator<<` of a number (repaired): room for sign and digits is made first, so a failed allocation leaves
+    every stream as it was -/
 theorem appendNum_spec {p : Pool} {o : Nat} {s : Obj} (hi : Inv p) (ho : p.objs o = some s) {b : List Nat} (hb : abs p o = some b)
     (neg : Bool) (ds : List Nat) :
     (∃ p', appendNum o neg ds p = .ok () p' ∧ Inv p' ∧ abs p' = (abs p).set o (some (b ++ ((if neg then [45] else []) ++ ds))) ∧ p'.failAt = p.failAt)
-    ∨ (∃ p', appendNum o neg ds p = .throw .badAlloc p' ∧ Inv p' ∧ p.failAt ≠ none ∧ p'.failAt = p.failAt ∧
-        (abs p' = abs p ∨ (neg = true ∧ abs p' = (abs p).set o (some (b ++ [45]))))) := by
+    ∨ (∃ p', appendNum o neg ds p = .throw .badAlloc p' ∧ Inv p' ∧ p.failAt ≠ none ∧ p'.failAt = p.failAt ∧ abs p' = abs p) := by
   cases neg with
   | false =>
     have : appendNum o false ds = append o ds := by simp [appendNum]
     rw [this]
     rcases append_spec hi ho hb ds with ⟨p', h1, h2, h3, h4⟩ | ⟨h1, h2⟩
     · exact Or.inl ⟨p', h1, h2, by simpa using h3, h4⟩
-    · exact Or.inr ⟨{ p with allocs := p.allocs + 1 }, h1, inv_allocs hi _, by rw [h2]; simp, rfl, Or.inl rfl⟩
+    · exact Or.inr ⟨{ p with allocs := p.allocs + 1 }, h1, inv_allocs hi _, by rw [h2]; simp, rfl, rfl⟩
   | true =>
-    have : appendNum o true ds = (appendChar o 45 1 >>= fun _ => append o ds) := by simp [appendNum]
+    have : appendNum o true ds = (expandBuffer o (ds.length + 1) >>= fun _ => appendChar o 45 1 >>= fun _ => append o ds) := by
+      simp [appendNum]
     rw [this]
-    rcases appendChar_spec hi ho hb 45 1 with ⟨p1, h1, hi1, ha1, hf1⟩ | ⟨h1, h2⟩
-    · have hb1 : abs p1 o = some (b ++ [45]) := by rw [ha1, set_get]; rfl
-      obtain ⟨s1, _, ho1, _⟩ := live_of_abs (p := p1) (o := o) (by rw [hb1]; rfl)
-      rcases append_spec hi1 ho1 hb1 ds with ⟨p2, h2, hi2, ha2, hf2⟩ | ⟨h2, h3⟩
-      · refine Or.inl ⟨p2, by simp only [bind_apply, h1, h2], hi2, ?_, hf2.trans hf1⟩
-        rw [ha2, ha1, set_set]; simp
-      · refine Or.inr ⟨{ p1 with allocs := p1.allocs + 1 }, by simp only [bind_apply, h1, h2], inv_allocs hi1 _, ?_, hf1, Or.inr ⟨rfl, ?_⟩⟩
-        · rw [← hf1, h3]; simp
-        · exact ha1
-    · exact Or.inr ⟨{ p with allocs := p.allocs + 1 }, by simp only [bind_apply, h1], inv_allocs hi _, by rw [h2]; simp, rfl, Or.inl rfl⟩
+    -- after the reservation: a pool p1 with the same contents in which sign and digits fit
+    have key : ∀ p1 s1, Inv p1 → p1.objs o = some s1 → abs p1 = abs p → p1.failAt = p.failAt → s1.size + (ds.length + 1) ≤ s1.alloc →
+        ∃ p', (appendChar o 45 1 >>= fun _ => append o ds) p1 = .ok () p' ∧ Inv p' ∧
+          abs p' = (abs p).set o (some (b ++ ([45] ++ ds))) ∧ p'.failAt = p.failAt := by
+      intro p1 s1 hi1 ho1 ha1 hf1 hr1
+      have hb1 : abs p1 o = some b := by rw [ha1]; exact hb
+      obtain ⟨p2, s2, h2, hi2, ha2, hf2, ho2, hal2, hsz2⟩ := appendChar_room hi1 ho1 hb1 45 1 (by omega)
+      have hb2 : abs p2 o = some (b ++ [45]) := by rw [ha2, set_get]; rfl
+      obtain ⟨p3, s3, h3, hi3, ha3, hf3, _⟩ := append_room hi2 ho2 hb2 ds (by omega)
+      refine ⟨p3, by simp only [bind_apply, h2, h3], hi3, ?_, hf3.trans (hf2.trans hf1)⟩
+      rw [ha3, ha2, set_set, ha1]; simp
+    by_cases hneed : s.size + (ds.length + 1) > s.alloc
+    · by_cases hfail : p.failAt = some (p.allocs + 1)
+      · refine Or.inr ⟨{ p with allocs := p.allocs + 1 }, ?_, inv_allocs hi _, by rw [hfail]; simp, rfl, rfl⟩
+        simp only [bind_apply, expand_fail hi ho _ hneed hfail]
+      · obtain ⟨p1, h1, hi1, ha1, ⟨s1, ho1, hs1, hr1⟩, hf1⟩ := expand_grow hi ho (ds.length + 1) hneed hfail
+        obtain ⟨p', h2, h3, h4, h5⟩ := key p1 s1 hi1 ho1 ha1 hf1 (by omega)
+        exact Or.inl ⟨p', by simp only [bind_apply, h1]; exact h2, h3, by simpa using h4, h5⟩
+    · obtain ⟨p', h2, h3, h4, h5⟩ := key p s hi ho rfl rfl (by omega)
+      exact Or.inl ⟨p', by simp only [bind_apply, expand_nogrow ho _ (by omega : s.size + (ds.length + 1) ≤ s.alloc)]; exact h2, h3, by simpa using h4, h5⟩
 
 /-- One step of any admissible history from a pool that satisfies the invariant: the operation returns
-    (or throws `unicode_error` for malformed wide text, or `bad_alloc` under a fault schedule) — never a
+    (or throws `unicode_error` for malformed wide text, or `bad_alloc` under a fault schedule, in both
+    cases showing the same bytes in every stream as before) — never a
     fault, never `stuck` —, the invariant holds again, and the abstraction moved by the spec step. -/
 theorem step_sound {p : Pool} (hi : Inv p) (op : Op) (hwf : op.wf) (hok : ByteLog.ok (abs p) op.toSpec = true) :
     (∃ p', op.run .repaired p = .ok () p' ∧ Inv p' ∧ abs p' = ByteLog.step (abs p) op.toSpec ∧ p'.failAt = p.failAt)
     ∨ (∃ p', op.run .repaired p = .throw .unicodeError p' ∧ Inv p' ∧ abs p' = abs p ∧ ByteLog.step (abs p) op.toSpec = abs p ∧
           p'.failAt = p.failAt)
-    ∨ (∃ p', op.run .repaired p = .throw .badAlloc p' ∧ Inv p' ∧ p.failAt ≠ none ∧ p'.failAt = p.failAt ∧
-          (abs p' = abs p ∨ ∃ o ds b, op = .appendNum o true ds ∧ abs p o = some b ∧ abs p' = (abs p).set o (some (b ++ [45])))) := by
+    ∨ (∃ p', op.run .repaired p = .throw .badAlloc p' ∧ Inv p' ∧ p.failAt ≠ none ∧ p'.failAt = p.failAt ∧ abs p' = abs p) := by
   cases op with
   | ctor o =>
     simp only [Op.toSpec, ByteLog.ok] at hok
@@ -815,13 +888,13 @@ theorem step_sound {p : Pool} (hi : Inv p) (op : Op) (hwf : op.wf) (hok : ByteLo
     obtain ⟨s, b, ho, hb⟩ := live_of_abs hok
     rcases append_spec hi ho hb bs with ⟨p', h1, h2, h3, h4⟩ | ⟨h1, h2⟩
     · exact Or.inl ⟨p', h1, h2, by simp only [Op.toSpec, ByteLog.step, hb]; exact h3, h4⟩
-    · exact Or.inr (Or.inr ⟨{ p with allocs := p.allocs + 1 }, h1, inv_allocs hi _, by rw [h2]; simp, rfl, Or.inl rfl⟩)
+    · exact Or.inr (Or.inr ⟨{ p with allocs := p.allocs + 1 }, h1, inv_allocs hi _, by rw [h2]; simp, rfl, rfl⟩)
   | appendChar o c n =>
     simp only [Op.toSpec, ByteLog.ok] at hok
     obtain ⟨s, b, ho, hb⟩ := live_of_abs hok
     rcases appendChar_spec hi ho hb c n with ⟨p', h1, h2, h3, h4⟩ | ⟨h1, h2⟩
     · exact Or.inl ⟨p', h1, h2, by simp only [Op.toSpec, ByteLog.step, hb]; exact h3, h4⟩
-    · exact Or.inr (Or.inr ⟨{ p with allocs := p.allocs + 1 }, h1, inv_allocs hi _, by rw [h2]; simp, rfl, Or.inl rfl⟩)
+    · exact Or.inr (Or.inr ⟨{ p with allocs := p.allocs + 1 }, h1, inv_allocs hi _, by rw [h2]; simp, rfl, rfl⟩)
   | appendText o e m us =>
     cases us with
     | none =>
@@ -839,16 +912,13 @@ theorem step_sound {p : Pool} (hi : Inv p) (op : Op) (hwf : op.wf) (hok : ByteLo
       · refine Or.inr (Or.inl ⟨p', h1, h2, h3, ?_, h5⟩)
         simp only [Op.toSpec, ByteLog.step, hb, h4, Option.getD_none]
         exact append_nil_set hb
-      · exact Or.inr (Or.inr ⟨p', h1, h2, h4, h5, Or.inl h3⟩)
+      · exact Or.inr (Or.inr ⟨p', h1, h2, h4, h5, h3⟩)
   | appendNum o neg ds =>
     simp only [Op.toSpec, ByteLog.ok] at hok
     obtain ⟨s, b, ho, hb⟩ := live_of_abs hok
     rcases appendNum_spec hi ho hb neg ds with ⟨p', h1, h2, h3, h4⟩ | ⟨p', h1, h2, h3, h4, h5⟩
     · exact Or.inl ⟨p', h1, h2, by simp only [Op.toSpec, ByteLog.step, hb]; exact h3, h4⟩
-    · refine Or.inr (Or.inr ⟨p', h1, h2, h3, h4, ?_⟩)
-      rcases h5 with h5 | ⟨h5, h6⟩
-      · exact Or.inl h5
-      · subst h5; exact Or.inr ⟨o, ds, b, rfl, hb, h6⟩
+    · exact Or.inr (Or.inr ⟨p', h1, h2, h3, h4, h5⟩)
   | truncate o n =>
     simp only [Op.toSpec, ByteLog.ok] at hok
     obtain ⟨s, b, ho, hb⟩ := live_of_abs hok
@@ -939,5 +1009,21 @@ theorem destroyAll_spec : ∀ (ids : List Nat) (p : Pool), Inv p →
         rw [ha1]; simp only [ByteLog.State.set]; split
         · rfl
         · exact abs_dead.mpr hx
+
+/-- destroying every live stream of a pool satisfying the invariant succeeds and leaves an empty heap -/
+theorem destroyAll_empty {p : Pool} (hi : Inv p) (ids : List Nat) (hall : ∀ o, p.objs o ≠ none → o ∈ ids) :
+    ∃ p', destroyAll ids p = .ok () p' ∧ (∀ o, p'.objs o = none) ∧ ∀ k, p'.heap k = none := by
+  obtain ⟨p', h4, h5, h6, h7⟩ := destroyAll_spec ids p hi
+  have hdead : ∀ o, p'.objs o = none := by
+    intro o
+    by_cases ho : o ∈ ids
+    · exact h6 o ho
+    · exact h7 o (Classical.byContradiction fun hne => ho (hall o hne))
+  refine ⟨p', h4, hdead, fun k => ?_⟩
+  cases hk : p'.heap k with
+  | none => rfl
+  | some blk =>
+    obtain ⟨o, s, ho, _⟩ := h5.owned k blk hk
+    rw [hdead o] at ho; cases ho
 
 end StVerif.Stream
